@@ -11,7 +11,9 @@
      - ASSUMPTION: a failing Commit or Rollback leaves the transaction ended with nothing applied;
        a failing Exec/Query has no effect; a failing Next returns false (as pgx does: the error is
        only available from Rows.Err(), which pg.go consults after the translated-key query only).
-   dump.go (Dump and its iterator) is not modelled. *)
+   dump.go: PDump k = Dump(k), then Dumper.Next until it returns nil, then Close. Dump runs in a
+   transaction of its own next to pdb.tx; the iteration goes on after the deferred Commit (the fake
+   materialises the result set at Query time; a real connection would behave differently there). *)
 From Vise Require Import Bytes Errors Consts.
 Local Open Scope N_scope.
 
@@ -42,7 +44,7 @@ Fixpoint olookup (id : N) (l : list (N * kv)) : option kv :=
 Fixpoint oremove (id : N) (l : list (N * kv)) : list (N * kv) :=
   match l with
   | [] => []
-  | (i, p) :: l' => if i =? id then oremove id l' else (i, p) :: oremove id l'
+  | (i, p) :: l' => if i =? id then l' else (i, p) :: oremove id l'   (* ids are unique *)
   end.
 Fixpoint oset (id : N) (p : kv) (l : list (N * kv)) : list (N * kv) :=
   match l with
@@ -95,6 +97,16 @@ Definition srv_query (s : srv) (id : N) (k : bytes) : srv * outcome err (option 
   else match olookup id (s_open s) with
        | None => (emit s KQuery id 3, Err EGen)
        | Some p => (emit s KQuery id 0, Ok (read_kv p (s_comm s) k))
+       end.
+
+(* pgx.Tx.Query with SELECT key, value ... WHERE key >= $1: every visible row from k on, in key order *)
+Definition rows_from (k : bytes) (m : kv) : kv := filter (fun e => bytes_leb k (fst e)) (asort m).
+Definition srv_dquery (s : srv) (id : N) (k : bytes) : srv * outcome err kv :=
+  let '(f, s) := tick s in
+  if f then (emit s KQuery id 1, Err EFault)
+  else match olookup id (s_open s) with
+       | None => (emit s KQuery id 3, Err EGen)
+       | Some p => (emit s KQuery id 0, Ok (rows_from k (apply_kv p (s_comm s))))
        end.
 
 (* pgx.Rows.Next (first call) together with what Rows.Err() reports afterwards: (is there a row,
@@ -157,22 +169,49 @@ Definition to_key (c : pcfg) (k : bytes) : outcome err (bytes * option bytes) :=
 (* DbBase.CheckPut *)
 Definition check_put (c : pcfg) : bool := N.land (c_pfx c) (c_lock c) =? 0.
 
-(* ---- pgDb --------------------------------------------------------------------------- *)
-Record pg : Set := mkPg { p_tx : option N; p_multi : bool; p_srv : srv }.
+Definition set_lang (c : pcfg) (l : option bytes) : pcfg := mkCfg (c_pfx c) (c_lock c) (c_sid c) l.
 
-Definition new_pg (init : kv) (orc : list bool) : pg := mkPg None false (new_srv init orc).
-Definition set_srv (st : pg) (s : srv) : pg := mkPg (p_tx st) (p_multi st) s.
+(* db.FromDbKey then DbBase.FromSessionKey (DbBase.DecodeKey); None = error. The session prefix is
+   stripped whatever the type of the key *)
+Definition decode_key (c : pcfg) (b : bytes) : option bytes :=
+  match b with
+  | [] | [_] => None
+  | typ :: b' =>
+    let n := len b' in
+    let b1 := if negb (N.land typ lang_types =? 0) && (6 <? n) && (nth (N.to_nat (n - 4)) b' 0 =? 95)
+              then take (n - 4) b' else b' in
+    match c_sid c with
+    | [] => Some b1
+    | sid => let pre := sid ++ [46] in
+             if is_prefix pre b1 then Some (drop (len pre) b1) else None
+    end
+  end.
+
+(* ---- pgDb --------------------------------------------------------------------------- *)
+Record pg : Set := mkPg {
+  p_tx : option N;           (* pdb.tx *)
+  p_multi : bool;            (* pdb.multi *)
+  p_lang : option bytes;     (* the language of the DbBase: Dump resets it (pdb.SetLanguage(nil)) *)
+  p_srv : srv
+}.
+
+Definition new_pg (c : pcfg) (init : kv) (orc : list bool) : pg := mkPg None false (c_lang c) (new_srv init orc).
+Definition set_srv (st : pg) (s : srv) : pg := mkPg (p_tx st) (p_multi st) (p_lang st) s.
+(* the key context in force: the configured one with the current language *)
+Definition eff (c : pcfg) (st : pg) : pcfg := set_lang c (p_lang st).
 
 Inductive pop : Set :=
-| PPut (k v : bytes) | PGet (k : bytes) | PStart | PStop | PAbort | PClose.
+| PPut (k v : bytes) | PGet (k : bytes) | PStart | PStop | PAbort | PClose
+| PDump (k : bytes).   (* Dump(k), Dumper.Next until nil, Dumper.Close *)
 
-Inductive pres : Set := POk | PVal (v : bytes) | PErr (e : err) | PPanic.
+Inductive pres : Set := POk | PVal (v : bytes) | PErr (e : err) | PPanic
+| PRows (rows : kv).   (* what a dump delivered: decoded key, value *)
 
 (* Abort: rollback error ignored *)
 Definition pg_abort (st : pg) : pg :=
   match p_tx st with
   | None => st
-  | Some t => let '(s, _) := srv_rollback (p_srv st) t in mkPg None (p_multi st) s
+  | Some t => let '(s, _) := srv_rollback (p_srv st) t in mkPg None (p_multi st) (p_lang st) s
   end.
 
 (* start: begin unless a transaction is already there; returns the current transaction *)
@@ -182,7 +221,7 @@ Definition pg_begin_if (st : pg) : pg * outcome err N :=
   | None =>
     let '(s, r) := srv_begin (p_srv st) in
     match r with
-    | Ok id => (mkPg (Some id) (p_multi st) s, Ok id)
+    | Ok id => (mkPg (Some id) (p_multi st) (p_lang st) s, Ok id)
     | Err e => (set_srv st s, Err e)
     | Panic p => (set_srv st s, Panic p)
     end
@@ -193,14 +232,14 @@ Definition pg_stop_single (st : pg) : pg * outcome err unit :=
   if p_multi st then (st, Ok tt)
   else match p_tx st with
        | None => (st, Panic 1)
-       | Some t => let '(s, r) := srv_commit (p_srv st) t in (mkPg None (p_multi st) s, r)
+       | Some t => let '(s, r) := srv_commit (p_srv st) t in (mkPg None (p_multi st) (p_lang st) s, r)
        end.
 
 (* stop *)
 Definition pg_stop_ (st : pg) : pg * outcome err unit :=
   match p_tx st with
   | None => (st, Err ENoTx)
-  | Some t => let '(s, r) := srv_commit (p_srv st) t in (mkPg None (p_multi st) s, r)
+  | Some t => let '(s, r) := srv_commit (p_srv st) t in (mkPg None (p_multi st) (p_lang st) s, r)
   end.
 
 Definition res_unit (r : outcome err unit) : pres :=
@@ -214,7 +253,7 @@ Definition pg_start (st : pg) : pg * pres :=
   | None =>
     let '(st, r) := pg_begin_if st in
     match r with
-    | Ok _ => (mkPg (p_tx st) true (p_srv st), POk)
+    | Ok _ => (mkPg (p_tx st) true (p_lang st) (p_srv st), POk)
     | Err e => (st, PErr e)
     | Panic _ => (st, PPanic)
     end
@@ -313,16 +352,88 @@ Definition pg_close (st : pg) : pg * pres :=
   let r := match r with PErr ENoTx => POk | x => x end in
   (set_srv st (srv_close (p_srv st)), r).
 
+(* dumpFunc, called by Dumper.Next to prefetch the following row, until it yields nil. It acts on the
+   oracle and the call log only (the Dump transaction is already committed). A row outside the
+   requested prefix (base = pdb.itBase) ends the listing; so do — silently — a failed fetch, a failed
+   Scan and an undecodable key: Dumper.Next has no error result *)
+Fixpoint dump_iter (c : pcfg) (id : N) (base : bytes) (rest : kv) (orc : list bool) : list pev * list bool * kv :=
+  match rest with
+  | [] => ([mkEv KNext id (if hd false orc then 1 else 0)], tl orc, [])
+  | (kk, vv) :: rest' =>
+    if hd false orc then ([mkEv KNext id 1], tl orc, [])
+    else if hd false (tl orc) then ([mkEv KScan id 1; mkEv KNext id 0], tl (tl orc), [])
+    else if negb (is_prefix base kk) then ([mkEv KScan id 0; mkEv KNext id 0], tl (tl orc), [])
+    else match decode_key c kk with
+         | None => ([mkEv KScan id 0; mkEv KNext id 0], tl (tl orc), [])
+         | Some dk =>
+           let '(evs, orc', l) := dump_iter c id base rest' (tl (tl orc)) in
+           (evs ++ [mkEv KScan id 0; mkEv KNext id 0], orc', (dk, vv) :: l)
+         end
+  end.
+
+(* Dump's deferred tx.Commit: its error is dropped *)
+Definition dump_commit (st : pg) (id : N) : pg :=
+  let '(s, _) := srv_commit (p_srv st) id in set_srv st s.
+
+(* Dump + iteration + Close. The transaction is Dump's own (id), pdb.tx is not touched. *)
+Definition pg_dump (c : pcfg) (st : pg) (k : bytes) : pg * pres :=
+  let '(s, r) := srv_begin (p_srv st) in
+  match r with
+  | Err e => (set_srv st s, PErr e)
+  | Panic _ => (set_srv st s, PPanic)
+  | Ok id =>
+    let st := mkPg (p_tx st) (p_multi st) None s in            (* pdb.SetLanguage(nil) *)
+    match to_key (eff c st) k with
+    | Err e => let '(s, _) := srv_rollback (p_srv st) id in (set_srv st s, PErr e)   (* tx.Rollback; return *)
+    | Panic _ => (st, PPanic)
+    | Ok (def, _) =>
+      let '(s, q) := srv_dquery (p_srv st) id def in
+      let st := set_srv st s in
+      match q with
+      | Err e => let '(s, _) := srv_rollback (p_srv st) id in (set_srv st s, PErr e)
+      | Panic _ => (st, PPanic)
+      | Ok rows =>
+        let '(s, (more, _)) := srv_next (p_srv st) id (match rows with [] => None | e :: _ => Some (snd e) end) in
+        let st := set_srv st s in
+        if negb more then (dump_commit st id, PErr ENotFound)
+        else
+          let '(s, r) := srv_scan (p_srv st) id in
+          let st := set_srv st s in
+          match r with
+          | Err e => (dump_commit st id, PErr e)
+          | Panic _ => (st, PPanic)
+          | Ok _ =>
+            match rows with
+            | [] => (st, PPanic)   (* unreachable: more = true *)
+            | (kk, vv) :: rest =>
+              if negb (is_prefix def kk) then (dump_commit st id, PErr ENotFound)   (* first row outside the prefix *)
+              else
+              match decode_key c kk with
+              | None => (dump_commit st id, PErr EGen)
+              | Some dk =>
+                let st := dump_commit st id in
+                let s := p_srv st in
+                let '(evs, orc', l) := dump_iter c id def rest (s_orc s) in
+                (set_srv st (mkSrv (s_comm s) (s_open s) (s_next s) (s_closed s) (evs ++ s_log s) orc'),
+                 PRows ((dk, vv) :: l))
+              end
+            end
+          end
+      end
+    end
+  end.
+
 (* one operation; the call log is per operation *)
 Definition pg_step (c : pcfg) (st : pg) (o : pop) : pg * pres :=
   let st := set_srv st (clear_log (p_srv st)) in
   match o with
-  | PPut k v => pg_put c st k v
-  | PGet k => pg_get c st k
+  | PPut k v => pg_put (eff c st) st k v
+  | PGet k => pg_get (eff c st) st k
   | PStart => pg_start st
   | PStop => pg_stop st
   | PAbort => (pg_abort st, POk)
   | PClose => pg_close st
+  | PDump k => pg_dump c st k
   end.
 
 (* ---- observable behaviour of a history -------------------------------------------------- *)
@@ -355,10 +466,11 @@ Record mstate : Set := mkM {
   m_mode : umode;
   m_abs : kv;          (* durable acknowledged writes, by storage key *)
   m_started : bool;    (* some Start has succeeded *)
-  m_hit : bool         (* guard of K-C13-stickymulti: a Put/Get was issued outside an explicit
+  m_hit : bool;        (* guard of K-C13-stickymulti: a Put/Get was issued outside an explicit
                           transaction after some Start had succeeded *)
+  m_lang : option bytes  (* the language in force: a Dump that got its transaction resets it *)
 }.
-Definition m_init (init : kv) : mstate := mkM MSingle init false false.
+Definition m_init (c : pcfg) (init : kv) : mstate := mkM MSingle init false false (c_lang c).
 
 Definition is_perr (r : pres) : bool := match r with PErr _ => true | _ => false end.
 Definition has_fault (evs : list pev) : bool := existsb (fun e => ev_flag e =? 1) evs.
@@ -371,11 +483,18 @@ Definition spec_get (vis : bytes -> option bytes) (def : bytes) (tr : option byt
   | None => match vis def with Some v => PVal v | None => PErr ENotFound end
   end.
 
+Fixpoint kv_eqb (a b : kv) : bool :=
+  match a, b with
+  | [], [] => true
+  | (k, v) :: a', (k', v') :: b' => bytes_eqb k k' && bytes_eqb v v' && kv_eqb a' b'
+  | _, _ => false
+  end.
 Definition pres_eqb (a b : pres) : bool :=
   match a, b with
   | POk, POk | PPanic, PPanic => true
   | PVal x, PVal y => bytes_eqb x y
   | PErr e, PErr f => err_eqb e f
+  | PRows x, PRows y => kv_eqb x y
   | _, _ => false
   end.
 
@@ -389,9 +508,25 @@ Definition opt_bytes_eqb (a b : option bytes) : bool :=
 Definition kv_agree (a b : kv) : bool :=
   forallb (fun k => opt_bytes_eqb (alookup k a) (alookup k b)) (map fst a ++ map fst b).
 
-(* k_hit: the step lies in the guard of finding K-C13-stickymulti;
-   k_fault / k_hyg / k_rec: the three demands of the property hold at this step *)
-Record mcheck : Set := mkChk { k_hit : bool; k_fault : bool; k_hyg : bool; k_rec : bool }.
+(* k_hit / k_dsw: the step lies in the guard of finding K-C13-stickymulti / K-C13-dumpswallow; k_fault / k_hyg / k_rec: the three demands of the property hold at this step *)
+Record mcheck : Set := mkChk { k_hit : bool; k_dsw : bool; k_fault : bool; k_hyg : bool; k_rec : bool }.
+
+(* guard of K-C13-dumpswallow: a Dump in which a fault fired at or after its deferred Commit, i.e. in
+   the Commit itself or in the iteration that follows (Dumper.Next / the deferred call have no error
+   result) *)
+Fixpoint from_commit (evs : list pev) : list pev :=
+  match evs with
+  | [] => []
+  | e :: evs' => match ev_kind e with KCommit => evs | _ => from_commit evs' end
+  end.
+Definition dump_late_fault (o : pop) (evs : list pev) : bool :=
+  match o with PDump _ => has_fault (from_commit evs) | _ => false end.
+(* did Dump get its transaction (and therefore reset the language) *)
+Definition dump_began (evs : list pev) : bool :=
+  match evs with
+  | e :: _ => match ev_kind e with KBegin => ev_flag e =? 0 | _ => false end
+  | [] => false
+  end.
 
 Definition put_key (c : pcfg) (k : bytes) : option bytes :=
   match to_key c k with
@@ -442,6 +577,7 @@ Definition mon_next (c : pcfg) (m : mstate) (o : pop) (ob : pobs) : umode * kv *
     end
   | PClose =>
     let ae := end_expl m ob (pres_eqb r POk) in (MClosed, fst ae, m_started m, snd ae)
+  | PDump _ => (m_mode m, m_abs m, m_started m, true)   (* a transaction of its own: pdb.tx untouched *)
   end.
 
 (* 3. reads return exactly the acknowledged writes (not judged when a fault fired inside the Get,
@@ -471,17 +607,22 @@ Definition hyg_check (mode' : umode) (ob : pobs) : bool :=
 Definition fault_check (o : pop) (ob : pobs) : bool :=
   match o with PAbort => true | _ => if has_fault (o_evs ob) then is_perr (o_res ob) else true end.
 
+Definition lang_next (m : mstate) (o : pop) (ob : pobs) : option bytes :=
+  match o with PDump _ => if dump_began (o_evs ob) then None else m_lang m | _ => m_lang m end.
+
 Definition hit_now (m : mstate) (o : pop) : bool :=
   m_hit m || (match o, m_mode m with
               | PPut _ _, MSingle | PGet _, MSingle => m_started m
               | _, _ => false end).
 
+(* the monitor judges Put/Get under the key context in force (configured context + current language) *)
 Definition mon_step (c : pcfg) (m : mstate) (o : pop) (ob : pobs) : mstate * mcheck :=
-  let nx := mon_next c m o ob in
+  let ce := set_lang c (m_lang m) in
+  let nx := mon_next ce m o ob in
   let mode' := fst (fst (fst nx)) in
-  (mkM mode' (snd (fst (fst nx))) (snd (fst nx)) (hit_now m o),
-   mkChk (hit_now m o) (fault_check o ob) (hyg_check mode' ob)
-         (get_check c m o ob && snd nx && negb (pres_eqb (o_res ob) PPanic))).
+  (mkM mode' (snd (fst (fst nx))) (snd (fst nx)) (hit_now m o) (lang_next m o ob),
+   mkChk (hit_now m o) (dump_late_fault o (o_evs ob)) (fault_check o ob) (hyg_check mode' ob)
+         (get_check ce m o ob && snd nx && negb (pres_eqb (o_res ob) PPanic))).
 
 Fixpoint mon_run (c : pcfg) (m : mstate) (ops : list pop) (obs : list pobs) : list mcheck :=
   match ops, obs with
@@ -491,14 +632,15 @@ Fixpoint mon_run (c : pcfg) (m : mstate) (ops : list pop) (obs : list pobs) : li
 
 (* the property at full strength *)
 Definition c13_full (ks : list mcheck) : bool := forallb (fun k => k_fault k && k_hyg k && k_rec k) ks.
-(* its three parts; the last two only up to the first step inside the sticky-multi guard *)
-Definition c13_fault (ks : list mcheck) : bool := forallb k_fault ks.
+(* its three parts, each outside the guards of the findings that break it *)
+Definition c13_fault_guarded (ks : list mcheck) : bool := forallb (fun k => k_dsw k || k_fault k) ks.
 Definition c13_hyg_guarded (ks : list mcheck) : bool := forallb (fun k => k_hit k || k_hyg k) ks.
 Definition c13_rec_guarded (ks : list mcheck) : bool := forallb (fun k => k_hit k || k_rec k) ks.
 Definition sticky_hit (ks : list mcheck) : bool := existsb k_hit ks.
+Definition dsw_hit (ks : list mcheck) : bool := existsb k_dsw ks.
 
 (* init = data committed before the history starts (e.g. default-language entries) *)
 Definition pg_run (c : pcfg) (init : kv) (ops : list pop) (orc : list bool) : list pobs :=
-  pg_trace c (new_pg init orc) ops.
+  pg_trace c (new_pg c init orc) ops.
 Definition pg_checks (c : pcfg) (init : kv) (ops : list pop) (orc : list bool) : list mcheck :=
-  mon_run c (m_init init) ops (pg_run c init ops orc).
+  mon_run c (m_init c init) ops (pg_run c init ops orc).
